@@ -291,7 +291,15 @@ func runC16(o *hx.Out, r *hx.Rand, thorough bool) {
 				transport2, tu2 = &t, t.unary(l)
 			}
 			l.take()
-			resp, err = du.Methods[0].Handler(svc, withVal(context.Background(), ctx0), func(m interface{}) error { m.(*hx.Msg).Count = int32(req); return nil }, tu2)
+			// the second of these dispatches runs under a context that has already ended: whether the handler runs
+			// is decided by the interceptors calling onward, not by the state of the context
+			dctx := withVal(context.Background(), ctx0)
+			if rep == 1 {
+				c, cancel := context.WithCancel(dctx)
+				cancel()
+				dctx = c
+			}
+			resp, err = du.Methods[0].Handler(svc, dctx, func(m interface{}) error { m.(*hx.Msg).Count = int32(req); return nil }, tu2)
 			rm = nil
 			if resp != nil {
 				rm = resp.(*hx.Msg)
@@ -354,13 +362,28 @@ func runC16(o *hx.Out, r *hx.Rand, thorough bool) {
 
 		// carrier 3: in-process channel, transport-level interceptors on the channel
 		ipc := &inprocgrpc.Channel{}
-		if tu != nil {
-			ipc.WithServerUnaryInterceptor(tu)
+		// the channel's interceptors are those configured when the RPC is made: configured before the service
+		// is registered, after it, or replacing others configured earlier
+		order := it % 3
+		if order == 1 {
+			ipc.RegisterService(both, svc)
 		}
-		if tst != nil {
-			ipc.WithServerStreamInterceptor(tst)
+		if order == 2 {
+			ipc.WithServerUnaryInterceptor(func(ctx context.Context, req interface{}, info *grpc.UnaryServerInfo, h grpc.UnaryHandler) (interface{}, error) {
+				l.add("(an interceptor that was replaced)")
+				return h(ctx, req)
+			})
+			ipc.WithServerStreamInterceptor(func(srv interface{}, ss grpc.ServerStream, info *grpc.StreamServerInfo, h grpc.StreamHandler) error {
+				l.add("(an interceptor that was replaced)")
+				return h(srv, ss)
+			})
+			ipc.RegisterService(both, svc)
 		}
-		ipc.RegisterService(both, svc)
+		ipc.WithServerUnaryInterceptor(tu)
+		ipc.WithServerStreamInterceptor(tst)
+		if order == 0 {
+			ipc.RegisterService(both, svc)
+		}
 		l.take()
 		out := &hx.Msg{}
 		err = ipc.Invoke(context.Background(), "/"+svcName+"/U", &hx.Msg{Count: int32(req)}, out)
